@@ -1,7 +1,7 @@
 #!/bin/bash
 # run the thorough tier of every claimed property, one after the other; prints one summary line each
 cd "$(dirname "$0")/.."
-for p in C01 C03 C06 C17 C12 C10 C07 C20 C14 C18 C02 C13 C04; do
+for p in C01 C03 C05 C06 C08 C09 C17 C12 C10 C07 C20 C14 C18 C02 C13 C04; do
   s=$(date +%s)
   ./cv check $p --tier thorough > thorough_$p.log 2>&1
   rc=$?
